@@ -31,7 +31,7 @@ ASSUMPTIONS = ['scheduling points: every non-thread-local bytecode instruction o
                'sampling parts of the quantifier (random multi-preemption schedules, free-running stress) are replaced '
                'by the complete <=2-preemption exploration; a short free-running pass is reported as a diagnostic only']
 
-KINDS = ['hit', 'ctx', '404', '405', 'fall', 'exc', 'redir', 'hit2']
+KINDS = ['hit', 'ctx', '404', '405', 'fall', 'exc', 'redir', 'hit2', 'app2']   # app2: served by a second Application
 
 
 def deadline_passed():
@@ -45,6 +45,7 @@ class World(object):
         from clastic.errors import NotFound
         from werkzeug.wrappers import Response
         self.ids = []
+        self.all_ids = set()
         ids = self.ids
 
         class Stamp(Middleware):
@@ -102,16 +103,18 @@ class World(object):
                                 ('/boom', boom), POST('/p', lambda: Response('p')), ('/d/<x:int>', ep)],
                                middlewares=[Stamp(), PerReq()])
 
+        self.app2 = App([GET('/z/<x>', ep)], middlewares=[Stamp(), PerReq()])
+
     def request_for(self, kind, tok):
         q = 'v=' + tok
         h = {'X-Tok': tok}
         return {'hit': ('/a/' + tok, 'GET'), 'ctx': ('/c/' + tok, 'GET'), '404': ('/zz/' + tok, 'GET'), '405': ('/p', 'GET'),
                 'fall': ('/n', 'GET'), 'exc': ('/boom', 'GET'), 'redir': ('/b/' + tok, 'GET'),
-                'hit2': ('/d/' + str(len(tok) * 7 + ord(tok[-1])), 'GET')}[kind] + (q, h)
+                'hit2': ('/d/' + str(len(tok) * 7 + ord(tok[-1])), 'GET'), 'app2': ('/z/' + tok, 'GET')}[kind] + (q, h)
 
     def serve(self, kind, tok):
         path, method, q, h = self.request_for(kind, tok)
-        res = wsgi.call(self.app, path, method, query=q, headers=h)
+        res = wsgi.call(self.app2 if kind == 'app2' else self.app, path, method, query=q, headers=h)
         return (res.status, res.body, res.header('Location'), res.header('X-Stamp'), res.header('X-Ep'),
                 res.header('Allow'), repr(res.raised) if res.raised else None)
 
@@ -196,10 +199,18 @@ def explore_combo(acc, w, kinds, bound, part):
         if len(ids) == len(kinds) and None not in ids and len(set(ids)) != len(ids):
             acc.violation('C12:request-id-collision', 'threads %r were assigned request ids %r' % (kinds, ids),
                           {'kinds': list(kinds), 'bound': bound, 'choices': list(run.choices)})
+        # ... and unique within the process: never an id that any earlier request of this worker was given
+        for rid in ids:
+            if rid in w.all_ids:
+                acc.violation('C12:request-id-reused', 'request id %r was assigned before in this process (threads %r)' % (rid, kinds),
+                              {'kinds': list(kinds), 'bound': bound, 'choices': list(run.choices)})
+                break
+        w.all_ids.update(i for i in ids if i is not None)
     first_choices = None
     if part is not None:
         split = B2_SPLIT if bound == 2 else 4
         first_choices = lambda i: i % split == part
+    w.all_ids.update(i for i in w.ids if i is not None)
     del w.ids[:]
     gc.disable()
     try:
